@@ -4,8 +4,8 @@
    name states, Proofs/PlanProofs.v, Proofs/MachinePlan.v) satisfies it. *)
 From Coq Require Import List Arith Bool NArith.
 From FFSM2 Require Import Model.TaskList Model.BitArray Model.BitStream Model.Plan Model.Ancestors Model.Machine
-  Proofs.BitArrayProofs Proofs.MachineFrame Proofs.MachinePlan Proofs.MachineLife Proofs.GuardProofs Proofs.CycleProofs Proofs.PlanStep
-  Proofs.SerialProofs Proofs.LogProofs Proofs.MachineTop Model.Multi Generated.InitFacts Proofs.ConstructProofs Proofs.LifeMonitor Proofs.ActivationRounds Proofs.IndexSafety Proofs.FeatureProofs.
+  Proofs.BitArrayProofs Proofs.TaskListProofs Proofs.TaskListRun Proofs.PlanProofs Proofs.MachineFrame Proofs.MachinePlan Proofs.MachineLife Proofs.GuardProofs Proofs.CycleProofs Proofs.PlanStep
+  Proofs.SerialProofs Proofs.LogProofs Proofs.MachineTop Model.Multi Generated.InitFacts Proofs.ConstructProofs Proofs.LifeMonitor Proofs.ActivationRounds Proofs.IndexSafety Proofs.FeatureProofs Model.Script Proofs.Contract Proofs.Histories.
 Import ListNotations.
 
 (* every callback of a delivery to w sees stateId() = id_of w (255 for the root), isActive(k) = (k = active) for every
@@ -50,7 +50,8 @@ Theorem C06_guards_see_pending_and_current :
   forall (P : Type) (cfg : config) (orc : oracle P) (PI : plan_data P -> Prop),
          plan_inv_ok P cfg PI ->
          wf_oracle P cfg orc ->
-         forall (cur pend : transition P) (s : mstate P) (w : who) (r : recipient) (m : method) (v : view P),
+         forall (cur pend : transition P) (s : mstate P) (w : who) (r : recipient) 
+           (m : method) (v : Machine.view P),
          In (EvCb P w r m v) (tr P (fst (cancelled_by_guards P cfg orc cur pend s))) ->
          In (EvCb P w r m v) (tr P s) \/ v_kind P v = KGuard /\ v_cur P v = cur /\ v_pend P v = pend.
 Proof. exact (guards_see_pending). Qed.
@@ -84,6 +85,18 @@ Theorem C06_request_with_payload_records_caller :
          {| t_origin := id_of w; t_dest := d; t_pay := Some p |}.
 Proof. exact (invoke_records_caller_with). Qed.
 Print Assumptions C06_request_with_payload_records_caller.
+
+(* over whole histories: every callback delivered anywhere in any in-contract history sees stateId() = its own id (255
+   for the root) and an isActive() table that is the characteristic vector of a single id - consistent for every k at
+   once *)
+Theorem C06_every_view_of_every_history :
+  forall (P : Type) (cfg : config) (orc : oracle P),
+         wf_cfg cfg ->
+         wf_oracle P cfg orc ->
+         forall (lg : bool) (ops : list (api_op P)),
+         ops_ok P cfg orc (construct P cfg orc lg) ops -> Forall (view_ok P cfg) (tr P (run P cfg orc lg ops)).
+Proof. exact (every_view_of_every_history). Qed.
+Print Assumptions C06_every_view_of_every_history.
 
 (* the abstract plan invariant the statements above quantify over is inhabited by the concrete one *)
 Theorem plan_invariant_exists :
